@@ -5,11 +5,13 @@ use crate::rulegen;
 use crate::util::*;
 use serde_json::{json, Value};
 
-pub const SEEDS: [&str; 17] = ["pa", "ta.pi", "ˈpa.taˌki", "a", "t", "paː", "taːː.pa", "pa5.ta51", "pa1234.pi55.ta3", "pat.ta", "ˌtaˈpat", "i.a", "ma214.a51", "pa1234.ta5.ki21",
+pub const SEEDS: [&str; 20] = ["pa", "ta.pi", "ˈpa.taˌki", "a", "t", "paː", "taːː.pa", "pa5.ta51", "pa1234.pi55.ta3", "pat.ta", "ˌtaˈpat", "i.a", "ma214.a51", "pa1234.ta5.ki21",
     // tones typed with zero digits (the reader drops them: 105 is 15, 50 is 5, 007 is 7)
-    "ma105", "ta.ma50.ta", "sa10.ko007"];
+    "ma105", "ta.ma50.ta", "sa10.ko007",
+    // glottals (no place node) next to nasals and stops
+    "san.ha", "am.ʔa", "anh"];
 
-pub const RULES: [&str; 78] = [
+pub const RULES: [&str; 84] = [
     // deletion of segments, syllables, boundaries
     "a > *", "C > * / _#", "V > * / C_#", "% > * / _%", "$ > *", "$ > * / _C", "%:[-stress] > * / _%", "t > * / #_", "V > * / _V", "C > * / _$", "%=1 > * / 1_",
     // insertion of boundaries, segments, syllables, structures, variables
@@ -24,6 +26,8 @@ pub const RULES: [&str; 78] = [
     // structures that may come out empty: no items, an unbound variable, a variable bound elsewhere
     "% > ⟨⟩", "a > ⟨⟩", "* > ⟨⟩ / _#", "k > ⟨1⟩", "C > ⟨1⟩ / _#", "C=1 > ⟨1 a⟩", "* > ⟨1⟩ / C=1 _", "% > ⟨2⟩:[+stress]",
     "C > [-place] / _#", "[+cons] > [αPLACE] / _[+cons, αPLACE]", "t > [+lab]", "p > [-lab]", "V > [+round]", "[] > [-dor]", "C > [+phr]", "[+lab] > [-lab, -cor, -dor, -phr]", "V > [αdor] / _[αdor]",
+    // whole-place alphas bound on segments that may have no place at all (glottals), and place removed piece by piece
+    "[+nasal] > [αPLACE] / _C:[αPLACE]", "C > [αPLACE] / _[αPLACE]", "[] > [αlab, βcor] / _[αlab, βcor]", "C > [-cor] / _#", "[+son] > [-lab, -dor]", "[αPLACE] > [αPLACE]",
 ];
 
 /// the invariant of the property statement
